@@ -35,7 +35,8 @@ Print Assumptions C08_serial_fail_once.
    position) and raises on_faulted - unless the owner had closed the sink before the connect ended. *)
 Theorem C08_serial_open_fail : forall ls s e0,
   run init ls = Some (s, e0) -> opn s = Some OConn ->
-  exists s' e, step s (LOConn false) = Some (s', e) /\ reported s' = Closed /\ sk s' = SNone /\ opn s' = None /    posts e = [] /\ (nfaults e = match cst s with Closed => 0 | _ => 1 end).
+  exists s' e, step s (LOConn false) = Some (s', e) /\ reported s' = Closed /\ sk s' = SNone /\ opn s' = None /\
+    posts e = [] /\ (nfaults e = match cst s with Closed => 0 | _ => 1 end).
 Proof.
   intros ls s e0 R O. apply open_fail; [exact (run_inv ls init s e0 inv_init R) | assumption].
 Qed.
@@ -198,55 +199,37 @@ Proof.
 Qed.
 Print Assumptions C08_ping_interval.
 
-(* "Reported open implies usable" for the mux transport is REFUTED by the faithful model (a finding about the code,
-   reproduced on the implementation by the monitor signature mux/open-after-shutdown-during-initial-ping): the first
-   Rping has been read, the next read fails before its _ProcessReply ran; _Shutdown closes the transport and raises
-   on_faulted; then _OnPingResponse's ar.set() overrides the shutdown's exception, _OpenImpl resumes successfully and
-   sets _state = Open.  The transport reports Open with both loops gone; a request is accepted and can never be sent;
-   only the next ping's time-out (>= 35 s later) shuts it down again, raising on_faulted a second time. *)
+(* A transport that reports Open has both loops alive, and on an idle transport the next request is tagged, taken by
+   the send loop and - the write succeeding - written.  (Before the fix "a transport shut down while Open() waits for the
+   first Rping does not become Open" this was refuted by the history race_history below; now _OpenImpl fails there.) *)
 Definition race_history : list Mux.label :=
   [MOpen; MOStart; MOConn true; MTake; MWrote IoOk; MRead IoOk FOther; MRead IoOk FPing; MRead IoEof FOther;
    MProcess; MOResume].
 
-Theorem C08_mux_open_means_usable_refuted :
-  exists s e, Mux.run (Mux.init 0) race_history = Some (s, e) /\
-    Mux.cst s = Mux.Open /\ sndl s = SDead /\ rcv s = RDead /\ Mux.nfaults e = 1 /\
-    (exists s1, Mux.step s (MReq 7) = Some (s1, [Mux.Accepted 7]) /\ Mux.step s1 MTake = None) /\
-    (exists s2 e2, Mux.run s [MPingStart 30; MTick 1920; MPingWake 30; MReq 7; MTick 2240; MPingTimeout] = Some (s2, e2) /\
-                   Mux.cst s2 = Mux.Closed /\ Mux.nfaults e2 = 1 /\ Mux.posts e2 = [(7, KClientErr)]).
-Proof.
-  eexists. eexists. split; [vm_compute; reflexivity|]. cbn.
-  repeat (split; [reflexivity|]). split.
-  - eexists. split; reflexivity.
-  - eexists. eexists. split; [vm_compute; reflexivity|]. cbn. repeat split.
-Qed.
-Print Assumptions C08_mux_open_means_usable_refuted.
-
-(* ... and it holds for every history in which _OpenImpl does not resume successfully on a transport that was shut
-   down meanwhile ([run_nr] = [Mux.run] minus exactly that step): Open implies both loops alive, and on an idle
-   transport the next request is tagged, taken by the send loop and - the write succeeding - written.
-   Full statement (refuted above):  forall ls s e, Mux.run (Mux.init t0) ls = Some (s, e) -> cst s = Open -> ... *)
-Theorem C08_mux_open_means_usable_partial : forall t0 ls s e,
-  run_nr (Mux.init t0) ls = Some (s, e) -> Mux.cst s = Mux.Open ->
-  Mux.run (Mux.init t0) ls = Some (s, e) /\ sndl s <> SDead /\ rcv s <> RDead /\
+Theorem C08_mux_open_means_usable : forall t0 ls s e,
+  Mux.run (Mux.init t0) ls = Some (s, e) -> Mux.cst s = Mux.Open ->
+  sndl s <> SDead /\ rcv s <> RDead /\
   (sndl s = SIdle -> queue s = [] -> forall c, mem_z c (Mux.seen s) = false ->
      exists s1 s2 s3, Mux.step s (MReq c) = Some (s1, [Mux.Accepted c]) /\ Mux.step s1 MTake = Some (s2, []) /\
                       Mux.step s2 (MWrote IoOk) = Some (s3, [Mux.Wire (IFrame c)]) /\ In c (tagmap s3)).
 Proof.
-  intros t0 ls s e R C. destruct (run_nr_inv ls _ _ _ (MuxP.inv_init t0) (alive_init t0) R) as (I & A & R2).
-  split; [assumption|]. apply usable; assumption.
+  intros t0 ls s e R C. destruct (run_alive ls _ _ _ (MuxP.inv_init t0) (alive_init t0) R) as (I & A).
+  apply usable; assumption.
 Qed.
-Print Assumptions C08_mux_open_means_usable_partial.
+Print Assumptions C08_mux_open_means_usable.
 
-(* ... and, for the same histories, on_faulted is raised at most once and the transport stays closed afterwards
-   (refuted in general by the history above: the second nfaults = 1). *)
-Theorem C08_mux_fault_once_partial : forall t0 ls s e,
-  run_nr (Mux.init t0) ls = Some (s, e) ->
+(* on_faulted is raised at most once and the transport stays closed afterwards *)
+Theorem C08_mux_fault_once : forall t0 ls s e,
+  Mux.run (Mux.init t0) ls = Some (s, e) ->
   Mux.nfaults e = 0 \/ (Mux.nfaults e = 1 /\ Mux.cst s = Mux.Closed).
 Proof.
-  intros t0 ls s e R. destruct (run_nr_faults ls _ _ _ R) as (_ & H). exact H.
+  intros t0 ls s e R. destruct (run_faults ls _ _ _ R) as (_ & H). exact H.
 Qed.
-Print Assumptions C08_mux_fault_once_partial.
+Print Assumptions C08_mux_fault_once.
+
+Example C08_mux_race_history_closed :
+  exists s e, Mux.run (Mux.init 0) race_history = Some (s, e) /\ Mux.cst s = Mux.Closed /\ Mux.nfaults e = 1 /\ opn s = None.
+Proof. eexists. eexists. split; [vm_compute; reflexivity|]. cbn. repeat split. Qed.
 
 (* non-vacuity: two calls, one written and one still queued behind a failing write, are both failed once *)
 Example C08_mux_example :
